@@ -399,6 +399,9 @@ class EnvWorld(CompWorld):
                         w.in_real_run = True
                         w.apply(label)              # reference side + bookkeeping only
                         w.env.step = shim
+                        import random as _random
+                        _saved_rr = _random.random
+                        _random.random = w._next_weight      # the run's own TERMINATE event draws a weight too
                         try:
                             if w.system is not None:
                                 from simprocesd.model import System
@@ -411,6 +414,7 @@ class EnvWorld(CompWorld):
                             else:
                                 w.env.run(label[1])      # the REAL run loop
                         finally:
+                            _random.random = _saved_rr
                             w.env.__dict__.pop('step', None)
                             w.in_real_run = False
                         if w.mode != 'idle':
